@@ -109,6 +109,12 @@ def r07_3(ctx: Ctx) -> None:
     for reader in sorted(readers):
         rel, qual = reader.split("::")
         last = qual.split(".")[-1]
+        outer_reader = f"{rel}::{qual.rsplit('.', 1)[0]}" if "." in qual else None
+        if reader not in allowed and outer_reader in allowed and qual not in _reference_helpers().get("__nested__", {}).get(rel, []):
+            # a function nested in a sanctioned reader (an extraction) reads on its behalf
+            attributed.discard(reader)
+            attributed.add(outer_reader)
+            continue
         if reader in allowed or not last.startswith("_") or last.startswith("__") or qual in _reference_helpers().get(rel, []):
             continue
         prefix = qual.rsplit(".", 1)[0] + "." if "." in qual else ""
